@@ -197,6 +197,9 @@ func CreateClusterInfo(cluster *proxyv1alpha1.UpstreamCluster,
 	info := NewEmptyClusterInfo(cluster.Name, restconfig, healthCheck, rateLimiter, clientSets)
 	err = info.Sync(cluster)
 	if err != nil {
+		// stop the partially initialized cluster, e.g. the health checks of
+		// the endpoints which are already added
+		info.Stop()
 		return nil, err
 	}
 	return info, nil
